@@ -145,6 +145,18 @@ def oracle(line, out):
     for t in set(tags):
         if tags.count(t) > 1:
             return ('twice', 'continuation %s ran %d times: %s' % (t, tags.count(t), m.group(2)))
+    # a rejection handler is handed the exception its promise was rejected with: one of the exceptions the program raised (or the null
+    # exception a swallowed rejection hands down) - never an exception object nobody threw (e.g. an exception_ptr wrapped once more)
+    raised = {0}
+    for op in ops:
+        ww = op.split()
+        if ww[0] == 'rej': raised.add(int(ww[1]))
+        elif ww[0] == 'reject': raised.add(int(ww[2]))
+        elif ww[0] == 'then': raised.update(int(x.split(':')[1]) for x in ww[3:4] if x.startswith('thr:'))
+    for e in log:
+        mm = re.fullmatch(r'r(\d+)\((-?\d+)\)', e)
+        if mm and int(mm.group(2)) not in raised and int(mm.group(2)) < 0:
+            return ('foreign-exception', 'rejection handler %s received an exception object that no party of the program raised (id %s): %s' % (mm.group(1), mm.group(2), m.group(2)))
     # an exception may surface only in a party that settles an already settled promise itself
     settled = set(); inputs = {}
     for op, o in zip(ops, outs):
